@@ -199,7 +199,7 @@ func runC03(c *report.Ctx) {
 				if _, fresh := fa.X.(*ssa.Alloc); fresh {
 					return
 				}
-				fname := n.Underlying().(*types.Struct).Field(fa.Field).Name()
+				fname := an.FName(n.Underlying().(*types.Struct), fa.Field)
 				if n.Obj().Name() == "TxIn" && fname == "Witness" {
 					nw++
 					c.OK(sk(f)+":TxIn.Witness=", "fills the witness", posOf(c, in))
